@@ -151,8 +151,8 @@ theorem active_values_sum_one (t : ℕ → K) (n p : ℕ) (u : K) (hn : 2 * p + 
 /-! ## derivative rows -/
 
 /-- full statement (all derivative orders): row `k` of the A2.3 result is the `k`-th derivative
-by the derivative recursion.  Proved below for `k = 0` (`activeDeriv_row0`), for the `k = 1` pass
-(`ders1_eq_cox_partial`) and for `k > p` (`ders_high_zero`); for `1 < k ≤ p` it is *decided per
+by the derivative recursion.  Proved below for `k = 0` (`activeDeriv_row0`), for `k = 1`
+(`ders_row1_eq_cox`, from the loop-body lemma `ders1_eq_cox_partial`) and for `k > p` (`ders_rows_high_zero`); for `1 < k ≤ p` it is *decided per
 request* by the correspondence driver in exact rational arithmetic (`spec=ok`), not proved. -/
 def ders_eq_cox_full : Prop :=
   ∀ (t : ℕ → K) (n p : ℕ) (u : K) (nd k r : ℕ), 2 * p + 2 ≤ n → Mono t n → t p ≤ u → u ≤ t (n - p - 1) →
@@ -179,6 +179,57 @@ so rows `k > p` of the result are zero and no `NDU[pk+1, …]` with `pk+1 ≤ 0`
 theorem ders_high_zero (ndu : ℕ → ℕ → K) (p r k : ℕ) (st : DState K) (hk : p < k) (hr : r ≤ p) :
     (dersStep ndu p r k st).2 = 0 ∧ (dersStep ndu p r k st).1.a1 = st.a2
       ∧ (dersStep ndu p r k st).1.a2 = st.a1 := dersStep_high ndu p r k st hk hr
+
+/-- reading entry `(k, r)`, `k ≥ 1`, of the result of `activeDeriv` -/
+theorem activeDeriv_entry (t : ℕ → K) (n p : ℕ) (u : K) (nd k r : ℕ) (hk : k < nd) (hr : r ≤ p) :
+    ((activeDeriv t n p u nd).getD (k + 1) []).getD r 0
+      = ((dersR (nduAt (nduTable (leftK t (findspan t n p u) u) (rightK t (findspan t n p u) u) p).reverse.toArray
+            (leftK t (findspan t n p u) u) (rightK t (findspan t n p u) u)) p nd (p + 1) 0
+            (List.replicate (p + 1) 0) (List.replicate (p + 1) 0)).getD r []).getD k 0 := by
+  unfold activeDeriv
+  simp only [List.getD_cons_succ]
+  have hlen := dersR_length (nduAt (nduTable (leftK t (findspan t n p u) u) (rightK t (findspan t n p u) u) p).reverse.toArray
+      (leftK t (findspan t n p u) u) (rightK t (findspan t n p u) u)) p nd (p + 1) 0
+      (List.replicate (p + 1) 0) (List.replicate (p + 1) 0)
+  have hr' : r < (dersR (nduAt (nduTable (leftK t (findspan t n p u) u) (rightK t (findspan t n p u) u) p).reverse.toArray
+      (leftK t (findspan t n p u) u) (rightK t (findspan t n p u) u)) p nd (p + 1) 0
+      (List.replicate (p + 1) 0) (List.replicate (p + 1) 0)).length := by rw [hlen]; omega
+  simp [List.getD_eq_getElem?_getD, List.getElem?_map, List.getElem?_range hk, hr']
+
+/-- **row 1 of the result of `active_deriv` is the first derivative** (derivative recursion) of the
+`p+1` active functions, for every degree `p ≥ 1`, every knot sequence, every `numderiv ≥ 1` — this is
+`ders1_eq_cox_partial` carried through the `r`- and `k`-loops (buffer lengths are invariant, the
+`r`-loop re-establishes `a1[0] = 1`, `fac = p`). -/
+theorem ders_row1_eq_cox (t : ℕ → K) (n p : ℕ) (u : K) (nd r : ℕ) (hnd : 1 ≤ nd) (hp : 1 ≤ p)
+    (hps : p ≤ findspan t n p u) (hr : r ≤ p) :
+    ((activeDeriv t n p u nd).getD 1 []).getD r 0
+      = dcoxS t (findspan t n p u) u 1 p (findspan t n p u - p + r) := by
+  rw [activeDeriv_entry t n p u nd 0 r (by omega) hr]
+  obtain ⟨st, ha, hf, hget⟩ := dersR_get (nduAt (nduTable (leftK t (findspan t n p u) u) (rightK t (findspan t n p u) u) p).reverse.toArray
+      (leftK t (findspan t n p u) u) (rightK t (findspan t n p u) u)) p nd (p + 1) (Nat.succ_pos p) (p + 1) 0
+      (List.replicate (p + 1) 0) (List.replicate (p + 1) 0) r (by simp) (by simp) (by omega)
+  rw [hget]
+  obtain ⟨st', h1, h0⟩ := dersK_get (nduAt (nduTable (leftK t (findspan t n p u) u) (rightK t (findspan t n p u) u) p).reverse.toArray
+      (leftK t (findspan t n p u) u) (rightK t (findspan t n p u) u)) p (0 + r) nd 1 st 0 (by omega)
+  rw [h1, h0 rfl]
+  have e : 0 + r = r := by omega
+  rw [e]
+  exact ders1_eq_cox_partial t _ p u r hp hps hr st ha hf
+
+/-- **rows `k > p` of the result of `active_deriv` are zero** (derivatives of order `> p` vanish,
+cf. `dN_vanish`), for every table content -/
+theorem ders_rows_high_zero (t : ℕ → K) (n p : ℕ) (u : K) (nd k r : ℕ) (hk : p < k) (hknd : k ≤ nd) (hr : r ≤ p) :
+    ((activeDeriv t n p u nd).getD k []).getD r 0 = 0 := by
+  obtain ⟨k', rfl⟩ : ∃ k', k = k' + 1 := ⟨k - 1, by omega⟩
+  rw [activeDeriv_entry t n p u nd k' r (by omega) hr]
+  obtain ⟨st, _, _, hget⟩ := dersR_get (nduAt (nduTable (leftK t (findspan t n p u) u) (rightK t (findspan t n p u) u) p).reverse.toArray
+      (leftK t (findspan t n p u) u) (rightK t (findspan t n p u) u)) p nd (p + 1) (Nat.succ_pos p) (p + 1) 0
+      (List.replicate (p + 1) 0) (List.replicate (p + 1) 0) r (by simp) (by simp) (by omega)
+  rw [hget]
+  obtain ⟨st', h1, _⟩ := dersK_get (nduAt (nduTable (leftK t (findspan t n p u) u) (rightK t (findspan t n p u) u) p).reverse.toArray
+      (leftK t (findspan t n p u) u) (rightK t (findspan t n p u) u)) p (0 + r) nd 1 st k' (by omega)
+  rw [h1]
+  exact (dersStep_high _ p (0 + r) (1 + k') st' (by omega) (by omega)).1
 
 /-- non-vacuity of the derivative statements: degree 2, knots `0,0,0,1/2,1,1,1`, `u = 1/4`:
 values `1/4, 5/8, 1/8`, first derivatives `-2, 1, 1`, second `8, -12, 4`, third `0`. -/
